@@ -108,7 +108,11 @@ def run_battery(groups: list[dist.GroupSpec], power: float, outcomes: dict[int, 
     saved = bm.ComponentPoolStatusTracker
     bm.ComponentPoolStatusTracker = StubTracker
     NOT_WORKING.clear()
-    NOT_WORKING.update(100 * (gi + 1) + bi for gi in not_working for bi in range(len(groups[gi].bats)))
+    for x in not_working:  # a group index, or (group index, battery index) for a single member battery
+        if isinstance(x, int):
+            NOT_WORKING.update(100 * (x + 1) + bi for bi in range(len(groups[x].bats)))
+        else:
+            NOT_WORKING.add(100 * (x[0] + 1) + x[1])
     try:
         comps, conns, layout = battery_topology(groups)
         with virtual_loop(wall=False) as loop, fakes.fake_microgrid(comps, conns) as cm:
